@@ -14,7 +14,8 @@ RULE = ("identities drawn over the whole domain (vendor / product-type ids 0..65
         "any IPv4, state 0..255) are configured in the reference target and read back through CIPDriver.list_identity, _list_identity, "
         "get_module_info(slot), LogixDriver.get_plc_info (UCMM for Micro800, Unconnected Send otherwise) and discover/_broadcast_discover "
         "with 0..5 UDP replies (every third scenario: ListIdentity replies carry a second, unknown item after the identity item); get_plc_info() again after "
-        "get_module_info(neighbour slot) in a rack whose modules differ; every returned field is compared with the configured identity; ModuleIdentityObject.decode(encode(d)) == d. "
+        "get_module_info(neighbour slot) in a rack whose modules differ; in 60 % of the rack scenarios a communication module answers ListIdentity and the controller sits behind it "
+        "(info / get_plc_info describe the controller); identity dicts with shuffled key order; every returned field is compared with the configured identity; ModuleIdentityObject.decode(encode(d)) == d. "
         "distinct = (entry point, vendor known?, type known?, serial nibble class, name length class) evaluated")
 ASSUMPTIONS = [
     "vendor / product-type texts: the ODVA lists as shipped at the pinned commit (vlib/data/identity_tables.json, 1457 vendors / 41 device types); ids added later take the library's text; 'UNKNOWN' otherwise",
